@@ -334,9 +334,16 @@ impl BuiltInFunction {
                     unreachable!()
                 };
 
-                let removed = v.0.borrow_mut().remove((*i).try_into().with_context(|| {
+                let index: usize = (*i).try_into().with_context(|| {
                     format!("vector index `{i}` could not fit in an int (i32)")
-                })?);
+                })?;
+
+                let len = v.0.borrow().len();
+                if index >= len {
+                    bail!("index {index} out of bounds (len {len})")
+                }
+
+                let removed = v.0.borrow_mut().remove(index);
 
                 Ok((Some(removed), None))
             }
